@@ -29,6 +29,69 @@ class Crash(BaseException):
     pass
 
 
+# storage fault: while FAULT["on"], every statement / commit of every SQLite connection opened by pynenc fails with
+# "database is locked" (a lock that outlives the busy timeout and pynenc's own retries)
+FAULT = {"on": False, "hits": 0}
+
+
+class _FaultConn:
+    def __init__(self, c: Any) -> None:
+        object.__setattr__(self, "_c", c)
+
+    def _chk(self) -> None:
+        if FAULT["on"]:
+            import sqlite3
+
+            FAULT["hits"] += 1
+            raise sqlite3.OperationalError("database is locked")
+
+    def execute(self, *a: Any) -> Any:
+        self._chk()
+        return self._c.execute(*a)
+
+    def executemany(self, *a: Any) -> Any:
+        self._chk()
+        return self._c.executemany(*a)
+
+    def commit(self) -> Any:
+        self._chk()
+        return self._c.commit()
+
+    def __getattr__(self, n: str) -> Any:
+        return getattr(self._c, n)
+
+    def __setattr__(self, n: str, v: Any) -> None:
+        setattr(self._c, n, v)
+
+    def __enter__(self) -> Any:
+        self._c.__enter__()
+        return self
+
+    def __exit__(self, *a: Any) -> Any:
+        return self._c.__exit__(*a)
+
+
+class _fault_seam:
+    """wraps the raw connection inside pynenc's SQLiteConnection for the duration of one run."""
+
+    def __enter__(self) -> None:
+        from pynenc.util import sqlite_utils as su
+
+        self.su = su
+        self.orig = su.SQLiteConnection.__init__
+
+        def init(obj: Any, conn: Any) -> None:
+            self.orig(obj, _FaultConn(conn))
+
+        su.SQLiteConnection.__init__ = init  # type: ignore[method-assign]
+        FAULT["on"] = False
+        FAULT["hits"] = 0
+
+    def __exit__(self, *a: Any) -> None:
+        self.su.SQLiteConnection.__init__ = self.orig  # type: ignore[method-assign]
+        FAULT["on"] = False
+
+
 class Effects:
     """Wraps the backend effects of one app object (= one process); counts them and can crash."""
 
@@ -52,11 +115,15 @@ class Effects:
             if fx.crash_at == (idx, "before"):
                 fx.active = False
                 raise Crash(f"before #{idx} {nm}")
+            if fx.crash_at == (idx, "locked"):
+                FAULT["on"] = True
             try:
                 r = orig(*a, **k)
             except Exception:
+                FAULT["on"] = False
                 fx.raised.add(idx)  # the effect was refused (e.g. a status change that is not allowed): nothing happened
                 raise
+            FAULT["on"] = False
             if fx.on_effect is not None:
                 fx.on_effect()
             if fx.crash_at == (idx, "after"):
@@ -472,13 +539,24 @@ def one_run(scn: str, backend: str, crash: tuple[int, str] | None) -> dict:
     w.fx.crash_at = crash
     w.fx.active = True
     crashed = None
+    errored = None
+    seam = _fault_seam() if crash and crash[1] == "locked" else None
+    if seam:
+        seam.__enter__()
     try:
         op()
     except Crash as c:
         crashed = str(c)
         w.accepted = accepted_before  # the dying call never returned: only earlier calls are accepted
+    except Exception as e:  # noqa: BLE001
+        if not seam:
+            raise
+        errored = f"{type(e).__name__}: {e}"
+        w.accepted = accepted_before  # the call raised: it was refused, only earlier calls are accepted
     finally:
         w.fx.active = False
+        if seam:
+            seam.__exit__()
     trace = list(w.fx.trace)
     at_crash = {i: (w.record(i), i in w.queue()) for i in w.accepted}
     w.recover_and_drain()
@@ -487,7 +565,7 @@ def one_run(scn: str, backend: str, crash: tuple[int, str] | None) -> dict:
     for i in w.accepted:
         inv = w.survivor.state_backend.get_invocation(i)
         names[i] = inv.arguments.kwargs["name"]
-    return dict(trace=trace, crashed=crashed, at_crash=at_crash, end=end, done=dict(w.done), names=names, refused=set(w.fx.raised),
+    return dict(trace=trace, crashed=crashed, errored=errored, fault_hits=FAULT["hits"] if seam else 0, at_crash=at_crash, end=end, done=dict(w.done), names=names, refused=set(w.fx.raised),
                 expect_failed=w.expect_failed, accepted=list(w.accepted))
 
 
@@ -499,6 +577,8 @@ def judge(p: Partial, scn: str, backend: str, crash: tuple | None, res: dict) ->
         completed = res["done"].get(name, 0) >= 1 or name in res["expect_failed"]
         if st in FINAL and completed:
             continue
+        if st in FINAL and crash and crash[1] == "locked":
+            continue  # the storage error became the invocation's (final, reported) failure: not stranded
         (cst, cowner), queued = res["at_crash"][i]
         if cst in AVAILABLE:
             pos = "available-and-queued" if queued else "available-but-not-queued"
@@ -519,7 +599,8 @@ def judge(p: Partial, scn: str, backend: str, crash: tuple | None, res: dict) ->
         after = [e for e in full[done_n:] if rel(e)]
         last = before[-1] if before else "begin"
         nxt = after[0] if after else "end"
-        p.violation({"clause": "accepted-invocation-not-completed-after-crash-and-recovery" if crash else
+        p.violation({"clause": "accepted-invocation-not-completed-after-storage-error" if crash and crash[1] == "locked" else
+                     "accepted-invocation-not-completed-after-crash-and-recovery" if crash else
                      "accepted-invocation-not-completed-without-any-crash",
                      "scenario": scn, "position_at_crash": pos,
                      "last_effect": last, "next_effect": nxt, "end_status": st},
@@ -551,6 +632,7 @@ def _unit(item: tuple) -> Partial:
         raise RuntimeError(f"fault-free run not reproducible: {scn}/{backend}")
     p.count("traces_validated_against_impl")
     n = len(ref["trace"])
+    stranded_if_dead_before: set[int] = set()
     for k in range(n):
         for when in ("before", "after"):
             if when == "after" and k in ref["refused"]:
@@ -563,7 +645,31 @@ def _unit(item: tuple) -> Partial:
             p.count("traces_validated_against_impl")
             p.add("states", (scn, backend, k, when, tuple(sorted(res["end"].values()))))
             p.add("distinct_outcomes", (scn, tuple(sorted(v[0] for v in res["end"].values()))))
+            nv = len(p.violations)
             judge(p, scn, backend, (k, when), res)
+            if when == "before" and len(p.violations) > nv:
+                stranded_if_dead_before.add(k)
+    if backend == env.SQLITE:
+        # storage-error points: effect k finds the database locked for good (every statement and commit of that
+        # effect fails); the victim is NOT killed: whatever its code does with the error is the behaviour judged
+        for k in range(n):
+            res = one_run(scn, backend, (k, "locked"))
+            if res["trace"][: k + 1] != ref["trace"][: k + 1]:
+                raise RuntimeError(f"storage-error run diverged from the fault-free effect trace: {scn}/{backend} {k}")
+            if not res["fault_hits"]:
+                p.count("storage_error_points_without_sql")
+                continue
+            p.count("storage_error_points")
+            if k in stranded_if_dead_before:
+                # a process that dies right before effect k already strands the invocation (reported / recorded by the
+                # crash point (k, before)); an error at k leaves it there as well: same window, not judged twice
+                p.count("storage_error_points_inside_a_reported_crash_window")
+                continue
+            p.count("storage_error_propagated_to_caller" if res["errored"] else "storage_error_absorbed")
+            p.count("transitions", len(res["trace"]))
+            p.count("traces_validated_against_impl")
+            p.add("states", (scn, backend, k, "locked", tuple(sorted(res["end"].values()))))
+            judge(p, scn, backend, (k, "locked"), res)
     p.sample({"scenario": scn, "backend": backend, "effects_of_the_victim": ref["trace"]}, limit=12)
     return p
 
@@ -715,7 +821,10 @@ def run(ctx: Ctx) -> None:
                 "(queue push/pop, status write, register, argument index, retry count, wait-graph write/release, result / "
                 "exception write, history, upsert), then re-run with a hard crash before and after every effect; "
                 "3 rounds of (clock + 11 min, real recover_pending / recover_running bodies, drain by a surviving runner); "
-                "every accepted invocation must be final with >= 1 completed body; thorough: for every crash point that is "
+                "every accepted invocation must be final with >= 1 completed body; SQLite: additionally every effect in turn "
+                "finds the database locked for good (all its statements and commits raise 'database is locked', the process "
+                "lives on): an invocation accepted by a call that returned must still complete, unless a death right before that "
+                "effect already strands it (same window as the crash point) or the error became its final failure; thorough: for every crash point that is "
                 "not a recorded stranding window, the recovery + drain phase is two concurrent surviving runners explored under "
                 "the controlled scheduler with <= 1 deviation")
     ctx.assume("a crash is modelled at backend-effect granularity; SQLite's own atomicity inside one effect is trusted")
